@@ -26,6 +26,7 @@ import json
 import time
 import glob
 import shutil
+import signal
 import hashlib
 import tempfile
 import traceback
@@ -167,6 +168,16 @@ class Ctx(object):
         self._ntmp = 0
         self.max_samples = 3
         self._nt_per_entry = collections.Counter()
+        # journal mode (second run of a shard whose process died): every case is written down BEFORE it is evaluated, so
+        # that the input that kills the interpreter (SIGSEGV / SIGBUS inside numpy, mmap...) can be reported and replayed
+        self.journal_path = None
+
+    def journal(self, entry, kind, case):
+        if self.journal_path:
+            with open(self.journal_path, 'w') as f:
+                json.dump({'entry': entry, 'kind': kind, 'case': case}, f, allow_nan=True)
+                f.flush()
+                os.fsync(f.fileno())
 
     # -- helpers for property modules ---------------------------------------------------
     @property
@@ -205,6 +216,7 @@ class Ctx(object):
         """Run one case; returns normally unless an unlisted violation occurred."""
         self.evaluations += 1
         self.entry_counts[entry] += 1
+        self.journal(entry, 'case', case)
         try:
             res = fn(case, self)
         except Violation as v:
@@ -366,6 +378,8 @@ def _machine_base():
 
         def log(self, name, **kwargs):
             self.trace.append([name, kwargs])
+            if self._ctx is not None and self._ctx.journal_path:
+                self._ctx.journal(self._entry, 'trace', self.trace)
 
         def guard(self, fn, *args, **kwargs):
             """Run a step body; on violation remember the trace (minimal one comes last)."""
@@ -474,13 +488,15 @@ def _load(prop):
 
 
 def _worker(args):
-    prop, tier, seed, shard, nshards, tmproot = args
+    prop, tier, seed, shard, nshards, tmproot = args[:6]
+    journal = args[6] if len(args) > 6 else None
     try:
         import warnings
         warnings.filterwarnings('ignore')
         mod = _load(prop)
         ctx = Ctx(prop, tier, seed, shard, nshards, tmproot, load_known())
         ctx.module = mod
+        ctx.journal_path = journal
         # sedfitter itself calls mkdtemp() (memory-mapped model fluxes) and never cleans up: keep that inside the
         # run's scratch directory, which is removed when the check exits
         scratch = os.path.join(tmproot, 'tmp%02d' % shard)
@@ -494,6 +510,79 @@ def _worker(args):
                 'failure': ctx.failure, 'entries': dict(ctx.entry_counts), 'wall': time.time() - t0}
     except BaseException as exc:  # noqa
         return {'shard': shard, 'harness_error': '%s\n%s' % (repr(exc), traceback.format_exc())}
+
+
+def _child_main(fn, args, out_path):
+    """body of a forked child: run fn(*args), leave the pickled result in out_path"""
+    import pickle
+    try:
+        res = fn(*args)
+    except BaseException as exc:  # noqa
+        res = {'child_exception': '%s\n%s' % (repr(exc), traceback.format_exc())}
+    tmp = out_path + '.tmp'
+    with open(tmp, 'wb') as f:
+        pickle.dump(res, f)
+    os.rename(tmp, out_path)
+    sys.stdout.flush()
+    os._exit(0)
+
+
+def run_children(jobs, tmproot, tag):
+    """jobs: list of (fn, args).  Each runs in its own forked process (at most cpu_count at a time); a process that DIES
+    (killed by a signal, os._exit from C code, ...) does not take the check down with it.
+    -> list of ('ok', result) | ('died', description)"""
+    import pickle
+    mpctx = multiprocessing.get_context('fork')
+    limit = max(1, os.cpu_count() or 1)
+    out = [None] * len(jobs)
+    pending = list(range(len(jobs)))
+    running = {}
+    while pending or running:
+        while pending and len(running) < limit:
+            i = pending.pop(0)
+            path = os.path.join(tmproot, 'result-%s-%d.pkl' % (tag, i))
+            if os.path.exists(path):
+                os.remove(path)
+            pr = mpctx.Process(target=_child_main, args=(jobs[i][0], jobs[i][1], path))
+            pr.start()
+            running[i] = (pr, path)
+        for i, (pr, path) in list(running.items()):
+            pr.join(0.05)
+            if pr.is_alive():
+                continue
+            del running[i]
+            if os.path.exists(path):
+                with open(path, 'rb') as f:
+                    out[i] = ('ok', pickle.load(f))
+                os.remove(path)
+            else:
+                code = pr.exitcode
+                what = 'exit code %r' % code
+                if code is not None and code < 0:
+                    try:
+                        what = 'signal %s' % signal.Signals(-code).name
+                    except ValueError:
+                        what = 'signal %d' % -code
+                out[i] = ('died', what)
+    return out
+
+
+def _replay_batch(mod, prop, paths, tier, seed, tmproot, known, progress):
+    """runs committed replay files in order (inside a child); `progress` holds the index of the file being run"""
+    ctx0 = Ctx(prop, tier, seed, 0, 1, tmproot, known)
+    ctx0.module = mod
+    res = []
+    for i, path in enumerate(paths):
+        with open(progress, 'w') as f:
+            f.write(str(i))
+        data = json.load(open(path))
+        try:
+            with quiet():
+                replay_one(mod, data, ctx0)
+            res.append((path, None, None))
+        except Violation as v:
+            res.append((path, v.message, v.signature))
+    return res
 
 
 def replay_one(mod, data, ctx):
@@ -595,12 +684,17 @@ def main(argv=None):
         if a.replay:
             ctx = Ctx(prop, a.tier, seed, 0, 1, tmproot, {})
             ctx.module = mod
-            data = json.load(open(a.replay))
-            try:
-                with quiet():
-                    replay_one(mod, data, ctx)
-            except Violation as v:
-                print('replay failed: %s' % v.message)
+            progress = os.path.join(tmproot, 'replay-progress')
+            (status, res), = run_children([(_replay_batch, (mod, prop, [a.replay], a.tier, seed, tmproot, {}, progress))],
+                                          tmproot, 'replay')
+            if status == 'died':
+                print('replay failed: the interpreter died (%s) while evaluating this input' % res)
+                print('VIOLATION property=%s replay=%s' % (prop, os.path.abspath(a.replay)))
+                return 1
+            if 'child_exception' in res:
+                raise HarnessError(res['child_exception'])
+            if res[0][1] is not None:
+                print('replay failed: %s' % res[0][1])
                 print('VIOLATION property=%s replay=%s' % (prop, os.path.abspath(a.replay)))
                 return 1
             print('replay passed: %s' % a.replay)
@@ -613,33 +707,68 @@ def main(argv=None):
         known_lines = {}
         first_failure = None
         replay_files = [] if os.environ.get('VERIF_NO_REPLAYS') else sorted(glob.glob(os.path.join(VERIF_DIR, 'replays', prop, '*.json')))
-        for path in replay_files:
-            data = json.load(open(path))
-            nrep += 1
-            try:
-                with quiet():
-                    replay_one(mod, data, ctx0)
-            except Violation as v:
-                if (prop, v.signature) in known:
-                    known_lines[v.signature] = known[(prop, v.signature)]
+        todo = list(replay_files)
+        progress = os.path.join(tmproot, 'replay-progress')
+        while todo:
+            (status, res), = run_children([(_replay_batch, (mod, prop, todo, a.tier, seed, tmproot, known, progress))],
+                                          tmproot, 'replays')
+            if status == 'ok' and 'child_exception' in res:
+                raise HarnessError(res['child_exception'])
+            if status == 'died':
+                # the file being replayed killed the interpreter: report it and go on with the rest
+                i = int(open(progress).read() or 0) if os.path.exists(progress) else 0
+                done = [(pth, None, None) for pth in todo[:i]]    # (their outcome is re-established below)
+                bad = todo[i]
+                print('regression input fails: %s: the interpreter died (%s) while evaluating it' % (bad, res))
+                nrep += 1
+                if first_failure is None:
+                    first_failure = bad
+                todo = todo[:i] + todo[i + 1:]
+                continue
+            for path, message, signature in res:
+                nrep += 1
+                if message is None:
                     continue
-                print('regression input fails: %s: %s' % (path, v.message))
+                if (prop, signature) in known:
+                    known_lines[signature] = known[(prop, signature)]
+                    continue
+                print('regression input fails: %s: %s' % (path, message))
                 if first_failure is None:
                     first_failure = path
+            todo = []
 
         # 2. generated search, sharded
         nshards = max(1, a.shards)
         jobs = [(prop, a.tier, seed, s, nshards, tmproot) for s in range(nshards)]
-        if nshards == 1:
-            results = [_worker(jobs[0])]
-        else:
-            mpctx = multiprocessing.get_context('fork')
-            pool = mpctx.Pool(min(nshards, os.cpu_count() or 1))
-            try:
-                results = pool.map(_worker, jobs, chunksize=1)
-            finally:
-                pool.close()
-                pool.join()
+        outcomes = run_children([(_worker, (job,)) for job in jobs], tmproot, 'shard')
+        results = []
+        for job, (status, res) in zip(jobs, outcomes):
+            if status == 'ok':
+                if 'child_exception' in res:
+                    res = {'shard': job[3], 'harness_error': res['child_exception']}
+                results.append(res)
+                continue
+            # the process of this shard died: run it again, writing every case down before it is evaluated
+            jpath = os.path.join(tmproot, 'journal-%d.json' % job[3])
+            (status2, res2), = run_children([(_worker, (job + (jpath,),))], tmproot, 'shard-again')
+            if status2 == 'ok':
+                if 'harness_error' in res2 or 'child_exception' in res2:
+                    results.append({'shard': job[3], 'harness_error': res2.get('harness_error') or res2.get('child_exception')})
+                else:
+                    # not reproducible: believe the second run, but say so
+                    print('note: the process of shard %d died (%s) once; a second run of the same shard completed' % (job[3], res))
+                    res2['labels']['shard_process_died_once'] = res2['labels'].get('shard_process_died_once', 0) + 1
+                    results.append(res2)
+                continue
+            if not os.path.exists(jpath):
+                results.append({'shard': job[3], 'harness_error': 'the process of shard %d died (%s) before any case was evaluated' % (job[3], res2)})
+                continue
+            j = json.load(open(jpath))
+            results.append({'shard': job[3], 'evaluations': 1, 'labels': {}, 'digests': set(), 'samples': [], 'known_hits': {},
+                            'entries': {j['entry']: 1}, 'wall': 0.,
+                            'failure': {'entry': j['entry'], 'kind': j['kind'], 'case': j['case'],
+                                        'message': 'the interpreter died (%s) while evaluating this input' % res2,
+                                        'signature': 'crash:%s' % res2}})
 
         errs = [r for r in results if 'harness_error' in r]
         if errs:
